@@ -290,6 +290,27 @@ fn beacon_mark(slot: usize, idx: u64, variant: u64) {
 
 pub const VARIANT_GENERATING: u64 = u64::MAX - 1;
 
+thread_local! {
+    static BEACON_SLOT: std::cell::Cell<usize> = const { std::cell::Cell::new(0) };
+}
+
+/// While a violation is being minimised the scenarios that are executed are no longer "scenario idx of
+/// the seed": each candidate is noted as JSON next to the beacon before it runs (and removed afterwards).
+fn beacon_shrink_path() -> Option<PathBuf> {
+    let p = std::env::var_os("VCHECK_BEACON")?;
+    let mut s = p.into_string().ok()?;
+    s.push_str(&format!(".shrink{}", BEACON_SLOT.with(|c| c.get())));
+    Some(PathBuf::from(s))
+}
+
+/// `vcheck probe-json <ID> <file>`: execute the scenario in the file and nothing else.
+pub fn probe_json<P: Property>(file: &Path) -> i32 {
+    let Ok(s) = std::fs::read_to_string(file) else { return 2 };
+    let Ok(sc) = serde_json::from_str::<P::Scenario>(&s) else { return 2 };
+    let _ = run_caught::<P>(&sc, false);
+    0
+}
+
 /// `vcheck probe <ID> <seed> <idx> <variant> <tier>`: execute that one scenario and nothing else (exit 0
 /// whatever it finds); `vcheck scenario-at ...`: print it as JSON. Both are run as child processes by the
 /// supervisor after the checking process died.
@@ -463,7 +484,14 @@ pub fn minimise<P: Property>(sc: &P::Scenario, v: &Violation, max_runs: usize) -
                 break 'outer;
             }
             runs += 1;
+            let note = beacon_shrink_path();
+            if let Some(p) = &note {
+                let _ = std::fs::write(p, serde_json::to_string(&c).unwrap_or_default());
+            }
             let r = run_caught::<P>(&c, false);
+            if let Some(p) = &note {
+                let _ = std::fs::remove_file(p);
+            }
             if r.harness_error.is_some() {
                 continue;
             }
@@ -641,6 +669,7 @@ pub fn check<P: Property>(opt: &Options) -> i32 {
         for w in 0..opt.threads.max(1) {
             let (next, stop, found, harness_errors, merged, samples) = (&next, &stop, &found, &harness_errors, &merged, &samples);
             s.spawn(move || {
+                BEACON_SLOT.with(|c| c.set(w));
                 let mut st = Stats::default();
                 loop {
                     if stop.load(Ordering::Relaxed) {
